@@ -16,6 +16,7 @@ import (
 	"github.com/idena-network/idena-go/blockchain/validation"
 	"verif/mc/chainmc"
 	"verif/mc/chainprop"
+	"verif/mc/replica"
 	"verif/mc/report"
 	"verif/mc/world"
 )
@@ -59,6 +60,38 @@ func newModel(thorough bool) *chainprop.Model {
 	m.H.Always = true
 	m.H.Proposed = func(t *chainprop.Trans) bool {
 		c := t.C
+		// a malicious proposer bypasses the pool: fresh transactions that the rules forbid must be
+		// refused by the strict block processing itself (foreign epoch, nonce gap, nonce reuse)
+		{
+			hb := world.NewB(t.A)
+			type hostile struct {
+				name string
+				tx   *types.Transaction
+			}
+			var hs []hostile
+			for _, from := range []int{world.X1, world.X2, world.V1} {
+				n := world.ActorNames[from]
+				hs = append(hs,
+					hostile{"future-epoch nonce1 " + n, world.NewB(t.A).Tx(world.Spec{From: from, To: world.PA(world.Z), Type: types.SendTx, Amount: replica.Dna(1), EpochD: 1, Nonce: 1})},
+					hostile{"future-epoch next-nonce " + n, world.NewB(t.A).Tx(world.Spec{From: from, To: world.PA(world.Z), Type: types.SendTx, Amount: replica.Dna(1), EpochD: 1})},
+					hostile{"nonce-gap " + n, world.NewB(t.A).Tx(world.Spec{From: from, To: world.PA(world.Z), Type: types.SendTx, Amount: replica.Dna(1), NonceD: 1})},
+				)
+				if t.A.App.State.Epoch() > 0 {
+					hs = append(hs, hostile{"past-epoch " + n, world.NewB(t.A).Tx(world.Spec{From: from, To: world.PA(world.Z), Type: types.SendTx, Amount: replica.Dna(1), EpochD: -1, Nonce: 1})})
+				}
+				if t.A.App.State.GetNonce(world.A(from)) > 0 && t.A.App.State.GetEpoch(world.A(from)) == t.A.App.State.Epoch() {
+					hs = append(hs, hostile{"nonce-reuse " + n, world.NewB(t.A).Tx(world.Spec{From: from, To: world.PA(world.Z), Type: types.SendTx, Amount: replica.Dna(1), Nonce: t.A.App.State.GetNonce(world.A(from))})})
+				}
+			}
+			_ = hb
+			for _, h := range hs {
+				c.Count("hostile_fresh_txs", 1)
+				if err := t.A.Chain.VerifProcessTxs([]*types.Transaction{h.tx}, t.Block.Header); err == nil {
+					c.Violation("block-processing-accepts:"+strings.Fields(h.name)[0], fmt.Sprintf("strict block processing accepts a forbidden fresh transaction (%s: tx epoch %d nonce %d, state epoch %d)", h.name, h.tx.Epoch, h.tx.AccountNonce, t.A.App.State.Epoch()), nil)
+					return false
+				}
+			}
+		}
 		// re-offer every previously included tx at this state (t.A is at the pre-state head)
 		for _, e := range histOf(t.St.Aux) {
 			ep, tx := decode(e)
